@@ -70,7 +70,7 @@ func writeEvidence(spec *Spec, tier string, seed int, results []*RunResult, wall
 		}
 		runs = append(runs, map[string]interface{}{
 			"run": r.Spec.Name, "description": r.Spec.Description, "package": r.Spec.Pkg, "entry": r.Spec.Entry,
-			"bounds":                    map[string]interface{}{"params": r.Tier.Params, "preemption_bound": r.Tier.Preempts, "scheduling_points_at_shared_memory": r.Tier.MemYield, "time_limit_s": r.Tier.TimeoutS, "step_budget_per_path": r.Tier.MaxSteps},
+			"bounds":                    map[string]interface{}{"params": r.Tier.Params, "preemption_bound": r.Tier.Preempts, "scheduling_at_blocking_points": schedName(r.Tier.Sched), "scheduling_points_at_shared_memory": r.Tier.MemYield, "time_limit_s": r.Tier.TimeoutS, "step_budget_per_path": r.Tier.MaxSteps},
 			"scaled_constants":          scaled,
 			"paths_explored":            r.Paths,
 			"paths_completed":           r.Done,
@@ -166,4 +166,11 @@ func writeEvidence(spec *Spec, tier string, seed int, results []*RunResult, wall
 	dir := filepath.Join(verifDir, "evidence")
 	os.MkdirAll(dir, 0o755)
 	return os.WriteFile(filepath.Join(dir, spec.Property+".json"), data, 0o644)
+}
+
+func schedName(s string) string {
+	if s == "det" {
+		return "one deterministic round-robin order (the property is not schedule-quantified)"
+	}
+	return "every order (symbolic scheduler)"
 }
